@@ -3,8 +3,6 @@
 package node
 
 import (
-	"time"
-
 	"ergo.services/ergo/gen"
 	"ergo.services/ergo/lib"
 )
@@ -85,6 +83,18 @@ func VerifC17Lifecycle() {
 	var members []*vfMember
 	app := &application{node: n, behavior: fa, state: int32(gen.ApplicationStateLoaded)}
 	app.spec.Name = "app"
+	app.spec.Mode = mode // what ApplicationLoad records from the spec
+	app.mode = mode
+	// a dependency that must be running before the application's own members are started
+	fdep := &vfApp{}
+	dep := &application{node: n, behavior: fdep, state: int32(gen.ApplicationStateLoaded)}
+	dep.spec.Name = "dep"
+	dep.spec.Mode = gen.ApplicationModeTemporary
+	dep.mode = gen.ApplicationModeTemporary
+	depStartedFirst := true
+	dep.spec.Group = []gen.ApplicationMemberSpec{{Name: "d0", Factory: func() gen.ProcessBehavior { return &vfMember{} }}}
+	n.applications.Store(dep.spec.Name, dep)
+	app.spec.Depends.Applications = []gen.Atom{"dep"}
 	names := []gen.Atom{"m0", "m1", "m2"}
 	for i := 0; i < nm; i++ {
 		i := i
@@ -95,6 +105,9 @@ func VerifC17Lifecycle() {
 					return nil
 				}
 				m := &vfMember{order: &order}
+				if fdep.starts == 0 {
+					depStartedFirst = false
+				}
 				if i == failAt {
 					m.init = errVfReason
 				}
@@ -104,15 +117,23 @@ func VerifC17Lifecycle() {
 		})
 	}
 	n.applications.Store(app.spec.Name, app)
-	opts := gen.ApplicationOptionsExtra{CorePID: n.corePID}
+	opts := gen.ApplicationOptions{}
+	appProcs := func() int {
+		cnt := 0
+		n.processes.Range(func(_, v any) bool {
+			if v.(*process).application == "app" {
+				cnt++
+			}
+			return true
+		})
+		return cnt
+	}
 
-	err := app.start(mode, opts)
+	err := n.ApplicationStart("app", opts)
 	if failAt >= 0 {
 		lib.VerifAssert(err != nil, "start fails when a member cannot be started")
 		lib.VerifYield()
-		cnt := 0
-		n.processes.Range(func(_, _ any) bool { cnt++; return true })
-		lib.VerifAssert(cnt == 0, "a failed start leaves no member running")
+		lib.VerifAssert(appProcs() == 0, "a failed start leaves no member running")
 		lib.VerifAssert(app.state == int32(gen.ApplicationStateLoaded), "a failed start leaves the application loaded")
 		lib.VerifAssert(fa.starts == 0, "start callback does not run on a failed start")
 		lib.VerifReach("failed start checked")
@@ -120,10 +141,14 @@ func VerifC17Lifecycle() {
 		failAt = -1
 		members = nil
 		order = nil
-		err = app.start(mode, opts)
+		err = n.ApplicationStart("app", opts)
 	}
 	lib.VerifAssert(err == nil, "start succeeds")
-	lib.VerifAssert(fa.starts == 1 && fa.startMode == mode, "start callback runs exactly once")
+	lib.VerifAssert(depStartedFirst && fdep.starts == 1, "dependencies are started first")
+	// whether a failed start invokes the terminate callback is not specified: count from here
+	termsBase := fa.terms
+	startsBase := 0
+	lib.VerifAssert(fa.starts-startsBase == 1 && fa.startMode == mode, "start callback runs exactly once")
 	lib.VerifAssert(len(order) == nm, "every member is started")
 	for i := 0; i < nm; i++ {
 		v, ok := n.names.Load(names[i])
@@ -140,7 +165,12 @@ func VerifC17Lifecycle() {
 		switch lib.VerifPick("event", 4) {
 		case 0: // a member terminates on its own
 			var live []*process
-			n.processes.Range(func(_, v any) bool { live = append(live, v.(*process)); return true })
+			n.processes.Range(func(_, v any) bool {
+				if v.(*process).application == "app" {
+					live = append(live, v.(*process))
+				}
+				return true
+			})
 			if len(live) == 0 {
 				continue
 			}
@@ -158,14 +188,12 @@ func VerifC17Lifecycle() {
 			abnormal := reason == errVfReason
 			mustStop := wasRunning && (mode == gen.ApplicationModePermanent || (mode == gen.ApplicationModeTransient && abnormal) || left == 0)
 			if mustStop {
-				cnt := 0
-				n.processes.Range(func(_, _ any) bool { cnt++; return true })
-				lib.VerifAssert(cnt == 0, "when the application stops every member is terminated")
+				lib.VerifAssert(appProcs() == 0, "when the application stops every member is terminated")
 				lib.VerifAssert(app.state == int32(gen.ApplicationStateLoaded), "a stopped application is back in the loaded state")
-				lib.VerifAssert(fa.terms == runs, "terminate callback runs exactly once per run")
+				lib.VerifAssert(fa.terms-termsBase == runs, "terminate callback runs exactly once per run")
 				lib.VerifReach("stopped by member termination")
 			} else if wasRunning {
-				lib.VerifAssert(app.state == int32(gen.ApplicationStateRunning) && fa.terms == runs-1, "the application keeps running when its mode does not ask for a stop")
+				lib.VerifAssert(app.state == int32(gen.ApplicationStateRunning) && fa.terms-termsBase == runs-1, "the application keeps running when its mode does not ask for a stop")
 				lib.VerifReach("kept running")
 			}
 		case 1, 2: // stop request (graceful / forced)
@@ -179,24 +207,30 @@ func VerifC17Lifecycle() {
 					causes = append(causes, gen.TerminateReasonShutdown)
 				}
 			}
-			err := app.stop(force, 5*time.Second)
+			var err error
+			if force {
+				err = n.ApplicationStopForce("app")
+			} else {
+				err = n.ApplicationStop("app")
+			}
 			lib.VerifYield()
 			if err == nil {
-				cnt := 0
-				n.processes.Range(func(_, _ any) bool { cnt++; return true })
-				lib.VerifAssert(cnt == 0 && app.group.Len() == 0, "stop reports success only when every member is gone")
+				lib.VerifAssert(appProcs() == 0 && app.group.Len() == 0, "stop reports success only when every member is gone")
 				lib.VerifAssert(app.state == int32(gen.ApplicationStateLoaded), "after a successful stop the application is loaded")
 			}
-			if wasRunning {
+			if wasRunning && !force {
 				lib.VerifAssert(err == nil, "stopping a running application with well-behaved members succeeds")
-				lib.VerifAssert(fa.terms == runs, "terminate callback runs exactly once per run")
+			}
+			if wasRunning {
+				lib.VerifAssert(app.state == int32(gen.ApplicationStateLoaded), "after a stop request and the members' exit the application is loaded")
+				lib.VerifAssert(fa.terms-termsBase == runs, "terminate callback runs exactly once per run")
 				lib.VerifReach("stopped on request")
 			}
 		case 3: // start again
 			if app.state != int32(gen.ApplicationStateLoaded) {
 				continue
 			}
-			if fa.terms == runs {
+			if fa.terms-termsBase == runs {
 				// previous run ended: check the reason it was given
 				c17CheckReason(fa.termArg, causes, stopAsked)
 			}
@@ -204,20 +238,21 @@ func VerifC17Lifecycle() {
 			order = nil
 			causes = nil
 			stopAsked = false
-			err := app.start(mode, opts)
+			err := n.ApplicationStart("app", opts)
 			lib.VerifAssert(err == nil, "a stopped application can be started again")
+			lib.VerifAssert(fa.startMode == mode, "a restart uses the mode of the application's spec")
 			if lib.VerifPick("idle", 2) == 1 {
 				lib.VerifYield()
 			}
 			runs++
-			lib.VerifAssert(fa.starts == runs, "start callback runs once per start")
+			lib.VerifAssert(fa.starts-startsBase == runs, "start callback runs once per start")
 			lib.VerifReach("restarted")
 		}
 	}
-	if fa.terms == runs {
+	if fa.terms-termsBase == runs {
 		c17CheckReason(fa.termArg, causes, stopAsked)
 	}
-	lib.VerifAssert(fa.terms <= runs, "terminate callback never runs more often than the application was started")
+	lib.VerifAssert(fa.terms-termsBase <= runs, "terminate callback never runs more often than the application was started")
 }
 
 // c17CheckReason: the reason given to Terminate is one of the things that happened in this run.
